@@ -296,6 +296,7 @@ type c15Sub struct {
 
 	cancel                                        context.CancelFunc
 	subInv, subRet, cancelInv, unsubInv, unsubRet int64
+	cancelRet                                     int64 // the cancel function of its context has returned (0: unknown)
 	leaveCh                                       chan struct{}
 	left, done                                    bool
 	pinned                                        bool
@@ -473,6 +474,7 @@ func c15Notifier() {
 			if s.preCancel {
 				s.cancelInv = simrt.Stamp()
 				cancel()
+				s.cancelRet = simrt.Stamp()
 				simrt.Probe("subscribe_with_cancelled_ctx")
 			}
 		case c15ModeCancel:
@@ -553,6 +555,9 @@ func c15Notifier() {
 				simrt.Probe("subscriber_ctx_cancel_during_publish")
 			}
 			s.cancel()
+			if s.cancelRet == 0 {
+				s.cancelRet = simrt.Stamp()
+			}
 		}
 		switch s.mode {
 		case c15ModeCancel:
@@ -914,6 +919,10 @@ func c15Notifier() {
 			}
 			if cnt > 0 && p.inv > s.unsubRet {
 				simrt.Failf("C15.after-unsubscribe", "%s: received although the publish began after Unsubscribe had returned", sd)
+				return
+			}
+			if cnt > 0 && s.mode != c15ModeSubscribe && s.cancelRet != 0 && s.cancelRet < p.inv {
+				simrt.Failf("C15.delivered-after-cancel", "%s: received although the subscription's context had been cancelled (cancel returned at %d) before the publish began", sd, s.cancelRet)
 				return
 			}
 			if cnt > 0 && p.returned && s.subInv > p.ret {
